@@ -111,7 +111,7 @@ class C06(Engine):
         #      (a budget, a counter or a cache that belongs to the process instead of the file shows only here)
         from ..workload import header42
         victims = [f for f in all_ids if P.meta[f]["group"] in ("special_clean", "special_notice", "special_erroneous")][:6]
-        for k, (lines, reps) in enumerate([(3000, 45)] if q else [(3000, 4), (3000, 20), (3000, 45), (3000, 110), (20000, 12)]):
+        for k, (lines, reps) in enumerate([(3000, 45)] if q else [(3000, 4), (3000, 20), (3000, 45), (3000, 110), (20000, 6)]):
             filler = {"name": "filler.c", "content": header42("filler.c") + "\n" + "// filler\n" * lines, "origin": f"filler:{lines}"}
             ops = [{"op": "api", "file": "fill", "no_compare": True} for _ in range(reps)] + [{"op": "api", "file": v} for v in victims]
             yield idx + 500_000 + k, {"kind": "hist", "volume": lines * reps, "tick_mult": 5, "files": {"fill": filler}, "ops": ops}
